@@ -77,6 +77,25 @@ func main() {
 	if len(os.Args) > 1 && os.Args[1] == "check" {
 		os.Exit(checkMain(os.Args[2:]))
 	}
+	if len(os.Args) > 2 && os.Args[1] == "replay" {
+		b, err := os.ReadFile(os.Args[2])
+		if err != nil {
+			fmt.Fprintln(os.Stderr, err)
+			os.Exit(2)
+		}
+		var doc ReplayDoc
+		if err := json.Unmarshal(b, &doc); err != nil {
+			fmt.Fprintln(os.Stderr, err)
+			os.Exit(2)
+		}
+		res, out := nativeReplay("/repo", "/verif", &doc, os.Args[2])
+		fmt.Println(out)
+		fmt.Println("native replay:", res)
+		if res == "reproduced" || res == "reproduced-differently" {
+			os.Exit(1)
+		}
+		os.Exit(0)
+	}
 	repo := flag.String("repo", "/repo", "repository root")
 	verif := flag.String("verif", "/verif", "verif root")
 	pkgPat := flag.String("pkg", "", "package patterns relative to repo (space separated)")
